@@ -516,6 +516,10 @@ func init() {
 		}
 	}
 	allCalls = append(append(append(append([]freeCall{}, alphabet...), weakCalls...), extras...), emptySlices...)
+	// open finding scope-session-open-tx: only the witness uses this call
+	allCalls = append(allCalls, freeCall{Name: `Scopes(Session{})`, Apply: func(db, _ *gorm.DB, _ modelKind) *gorm.DB {
+		return db.Scopes(func(d *gorm.DB) *gorm.DB { return d.Session(&gorm.Session{}) })
+	}})
 	for i, a := range allCalls {
 		if _, ok := alphaIndex[a.Name]; !ok {
 			alphaIndex[a.Name] = i
@@ -1438,4 +1442,21 @@ func TestC09Effective(t *testing.T) {
 			rt.Fatalf("C09 violated: %s, case: %s", msg, desc)
 		}
 	})
+}
+
+// open finding scope-session-open-tx: db.Scopes(func(d) d.Session(&gorm.Session{})).Delete(&T{}) is
+// rejected with ErrMissingWhereClause, but the implicit transaction opened for it is never
+// rolled back (the "started transaction" flag is stored on a throw-away statement of the derived
+// session). The generator only draws the scope together with SkipDefaultTransaction.
+func TestC09WitnessScopeSessionOpenTx(t *testing.T) {
+	for _, fin := range []string{`Delete(&T{})`, `Update("mark",7)`} {
+		c := Case{Model: "plain", AGU: "off", Calls: []string{`Scopes(Session{})`}, Fin: fin}
+		msg, err := checkFree(c)
+		if err != nil {
+			t.Fatalf("harness: %v", err)
+		}
+		if msg != "" {
+			t.Errorf("C09 violated: %s, case: %s", msg, c)
+		}
+	}
 }
